@@ -542,7 +542,7 @@ private:
    void NodeChangedAux(DataNode & modifiedNode, const ConstMessageRef & nodeData, NodeChangeFlags nodeChangeFlags);
    void UpdateDefaultMessageRoute();
    status_t RemoveParameter(const String & paramName, bool & retUpdateDefaultMessageRoute);
-   int PassMessageCallbackAux(DataNode & node, const MessageRef & msgRef, bool matchSelfOkay);
+   int PassMessageCallbackAux(DataNode & node, const MessageRef & msgRef, bool matchSelfOkay, Hashtable<const AbstractReflectSession *, Void> * optSentTo = NULL);
    void TallyNodeBytes(const DataNode & n, uint64 & retNumNodes, uint64 & retNodeBytes) const;
    ConstDataNodeSubscribersTableRef GetDataNodeSubscribersTableFromPool(const ConstDataNodeSubscribersTableRef & curTableRef, uint32 sessionID, int32 delta);
    void ScheduleNextKeepAliveSend(uint64 now);
